@@ -19,22 +19,27 @@ PutNext == /\ phase = "put" /\ todo # {}
                               /\ hist' = Append(hist, Step("put", k, Val(k), map'))
            /\ UNCHANGED <<ty, phase>>
 \* after the puts: one composite tail (deterministic), so that orders are the only branching
+\* (computed by a pure operator and handed to the action as an ARGUMENT: a LET written directly in an action is re-evaluated
+\* at every use of its names)
+TailOf(m, pool) ==
+  LET keys == {p[1] : p \in m}
+      cand == pool \ keys
+      hasAbsent == cand # {}
+      absent == IF hasAbsent THEN CHOOSE k \in cand : TRUE ELSE <<>>
+      si == SortedItems(m)
+      gets == [i \in 1..Len(si) |-> Step("get", si[i][1], si[i][2], m)]
+      m2 == IF m = {} THEN m ELSE PutM(m, si[1][1], Val2(si[1][1]))
+      over == IF m = {} THEN <<>> ELSE << Step("put", si[1][1], Val2(si[1][1]), m2) >>
+      m3 == IF hasAbsent THEN PutM(m2, absent, Val(absent)) ELSE m2
+      fresh == IF hasAbsent THEN << Step("put", absent, Val(absent), m3) >> ELSE <<>>
+  IN [h |-> << Step("enc", <<>>, <<>>, m), Step("dec", <<>>, <<>>, m) >> \o gets
+              \o (IF hasAbsent THEN << Step("getabsent", absent, <<>>, m) >> ELSE <<>>)
+              \o over \o fresh \o << Step("enc", <<>>, <<>>, m3), Step("dec", <<>>, <<>>, m3) >>,
+      m |-> m3]
+TailApply(o) == hist' = hist \o o.h /\ map' = o.m
 TailStep == /\ phase = "put" /\ todo = {}
-        /\ LET keys == {p[1] : p \in map}
-               cand == PoolOf(ty) \ keys
-               hasAbsent == cand # {}
-               absent == IF hasAbsent THEN CHOOSE k \in cand : TRUE ELSE <<>>
-               si == SortedItems(map)
-               gets == [i \in 1..Len(si) |-> Step("get", si[i][1], si[i][2], map)]
-               m2 == IF map = {} THEN map ELSE PutM(map, si[1][1], Val2(si[1][1]))
-               over == IF map = {} THEN <<>> ELSE << Step("put", si[1][1], Val2(si[1][1]), m2) >>
-               m3 == IF hasAbsent THEN PutM(m2, absent, Val(absent)) ELSE m2
-               fresh == IF hasAbsent THEN << Step("put", absent, Val(absent), m3) >> ELSE <<>>
-           IN /\ hist' = hist \o << Step("enc", <<>>, <<>>, map), Step("dec", <<>>, <<>>, map) >> \o gets
-                              \o (IF hasAbsent THEN << Step("getabsent", absent, <<>>, map) >> ELSE <<>>)
-                              \o over \o fresh \o << Step("enc", <<>>, <<>>, m3), Step("dec", <<>>, <<>>, m3) >>
-              /\ map' = m3
-        /\ phase' = "done" /\ UNCHANGED <<ty, todo>>
+            /\ TailApply(TailOf(map, PoolOf(ty)))
+            /\ phase' = "done" /\ UNCHANGED <<ty, todo>>
 Next == PutNext \/ TailStep
 Spec == Init /\ [][Next]_vars
 Emit == phase = "done" => PrintT(<<"VEC", ToJson([kind |-> ty[1], n |-> ty[2], steps |-> hist])>>)
